@@ -62,6 +62,20 @@ def parse(src, std="f2003", ignore_comments=True, real_create=False, **kw):
     return p(reader)
 
 
+def site(exc, depth=2):
+    """innermost fparser frames of an exception's traceback: 'file:function<-file:function'"""
+    tb = exc.__traceback__
+    frames = []
+    while tb is not None:
+        code = tb.tb_frame.f_code
+        fn = str(code.co_filename)
+        i = fn.find("/fparser/")
+        if i >= 0:
+            frames.append(fn[i + 9:] + ":" + str(code.co_qualname))
+        tb = tb.tb_next
+    return "<-".join(frames[::-1][:depth])
+
+
 def outcome(fn):
     """('ok', result) or ('exc', type name, exception) -- SystemExit included"""
     try:
